@@ -20,6 +20,7 @@ func propC20(r *Report, tier string) {
 	ruleNestedAdvanceBuffered(r, "K12-nested-advance-buffered")
 	ruleCompoundSwitchCoverage(r, "K13-compound-coverage")
 	rulePivotFixedDuringAlignment(r, "K14-pivot-fixed-during-alignment")
+	ruleNestedAdvanceTargetsJoinLevel(r, "K5dep-nested-advance-join-level")
 	ruleParallelSlotsUpdatedTogether(r, "K14-parallel-slots", "search/searcher", "NestedConjunctionSearcher", "currs", []string{"currAncestors", "currKeys"})
 	r.Floor("K5dep-nested-deletes", 1)
 	r.Floor("K5-nested-fold", 3)
